@@ -8,7 +8,7 @@ from props.c15 import to_abs, to_py, call as call15, UNSET
 WARNING = "Warning: A successor has modified the shared dicts"
 
 UNARY = (
-    [{"op": "filter", "p": p} for p in ({"f": "a_eq", "v": 0}, {"f": "a_eq", "v": -1}, {"f": "b_notnone"}, {"f": "true"}, {"f": "false"})] +
+    [{"op": "filter", "p": p} for p in ({"f": "a_eq", "v": 0}, {"f": "a_eq", "v": -1}, {"f": "b_notnone"}, {"f": "b_value"}, {"f": "true"}, {"f": "false"})] +
     [{"op": "filter_out", "p": p} for p in ({"f": "a_eq", "v": 1}, {"f": "b_notnone"})] +
     [{"op": "filter_kv", "kv": [["a", 0]]}, {"op": "filter_out_kv", "kv": [["a", 1]]}] +
     [{"op": "sort", "keys": ["a"], "dirs": [d]} for d in (1, -1)] +
